@@ -405,10 +405,30 @@ def run_S1(chk):
             chk.verdict("S1", (f, s), f"guard dominates `{A.short(s, 40)}`", True if cfg.must_pass([s], [g.test]) else False,
                         f"set_block(): `{A.short(s, 40)}` is reachable without passing the selection-rule guard")
     f = prog.func(INI, "_fill_tensor")
-    ind = [n for n in A.walk_local(f.node) if isinstance(n, ast.Assign) and A.text(n.targets[0]) == "ind"]
-    okind = ind and "a.config.sym.fuse(comb_t, a.struct.s, 1) == a.struct.n" in A.text(ind[0].value) and "np.all(" in A.text(ind[0].value)
-    use = [n for n in A.walk_local(f.node) if isinstance(n, ast.Assign) and A.text(n.targets[0]) == "tset" and A.text(n.value) == "comb_t[ind]"]
-    used = [n for n in A.walk_local(f.node) if isinstance(n, ast.Assign) and A.text(n.targets[0]) == "Dset" and A.text(n.value) == "comb_D[ind]"]
+    # structural: a boolean selector  M = all(sym.fuse(X, <tensor>.struct.s, 1) == <tensor>.struct.n, axis=1)  exists, and both the candidate
+    # charges X and a second array (the dimensions) are restricted by that very selector (names are read off the code; the normal form
+    # N1 brings a helper's body back)
+    ten = f.params[0]
+    sel = None
+    for n in A.walk_local(f.node):
+        if isinstance(n, ast.Call) and (A.call_name(n) or "").split(".")[-1] == "all" and n.args and isinstance(n.args[0], ast.Compare) \
+                and len(n.args[0].ops) == 1 and isinstance(n.args[0].ops[0], ast.Eq):
+            l, r = n.args[0].left, n.args[0].comparators[0]
+            for fu, tot in ((l, r), (r, l)):
+                if isinstance(fu, ast.Call) and A.callee_attr(fu) == "fuse" and len(fu.args) == 3 and A.text(fu.args[1]) == f"{ten}.struct.s" \
+                        and A.neg_const(fu.args[2]) == 1 and A.text(tot) == f"{ten}.struct.n":
+                    sel = (n, fu.args[0])
+    okind = use = used = False
+    if sel is not None:
+        okind = True
+        par_ = A.enclosing_map(f.node)
+        st_ = A.stmt_of(sel[0], par_)
+        mname = A.text(st_.targets[0]) if isinstance(st_, ast.Assign) and st_.value is sel[0] else A.text(sel[0])
+        xname = A.text(sel[1])
+        subs = [x for x in A.walk_local(f.node) if isinstance(x, ast.Subscript) and isinstance(x.ctx, ast.Load) and A.text(x.slice) == mname]
+        use = any(A.text(x.value) == xname for x in subs)
+        used = any(A.text(x.value) != xname for x in subs)
+    ind = [A.stmt_of(sel[0], A.enclosing_map(f.node))] if sel is not None else []
     chk.verdict("S1", (f, ind[0] if ind else f.node), "_fill_tensor: candidate blocks filtered by the selection rule", True if (okind and use and used) else False,
                 "_fill_tensor(): the candidate charge combinations are no longer filtered by `fuse(t, s, 1) == n` (both charges and dimensions)")
     T = prog.cls("yastn.tensor", "Tensor")
@@ -460,29 +480,46 @@ def run_S45(chk):
                 and A.text(n.targets[0]) in ("Ut", "Vt", "St", "Qt", "Rt")]
         chk.verdict("S4", (f, tcon[0] if tcon else f.node), f"{name}: connecting charges from one variable t_con ({[A.text(x.targets[0]) for x in tcon]})",
                     True if len(tcon) >= (2 if (right or mid) else 1) else False, f"{name}: the charges of the connecting leg are not derived from one variable")
-    # S4 in the callers: fusion records of the new leg
-    for name, checks in (("svd", [("Uhfs", "sU", -1), ("Vhfs", "-sU", 0), ("Shfs", None, None)]),
-                         ("qr", [("Qhfs", "sQ", -1), ("Rhfs", "-sQ", 0)]),
-                         ("eigh", [("Uhfs", "sU", -1), ("Shfs", None, None)])):
+    # S4 in the callers: the factor that ends with the new leg and the factor that starts with it give it opposite signatures, in the
+    # signature sequence and in the fusion record (names are read off the `_replace` results; engine E3 discover_triples)
+    from . import e3 as _e3
+    for name in ("svd", "qr", "eigh", "eig"):
         f = prog.func(LIN, name)
         b = A.local_bindings(f.node)
-        for nm, sig, pos in checks:
-            d = [v for st, v, k in b.get(nm, []) if v is not None]
-            if not d:
-                if name == "eigh":
-                    continue
-                raise AnalysisError(f"{name}: {nm} not found")
-            v = d[-1]
-            tx = A.text(v)
-            if sig is None:
-                par = "sU"
-                ok = tx == f"(_Fusion(s=(-{par},)), _Fusion(s=({par},)))"
-                chk.verdict("S4", (f, v), f"{name}: {nm} = {tx}", True if ok else False, f"{name}: fusion records of S are not (-{par}, {par})")
+        trip = _e3.discover_triples(f)
+        if not trip:
+            if name in ("eigh", "eig"):
                 continue
-            frag = f"(_Fusion(s=({sig},)),)"
-            ok = tx.endswith("+ " + frag) if pos == -1 else tx.startswith(frag + " +")
-            chk.verdict("S4", (f, v), f"{name}: {nm} has `{frag}` at position {pos}", True if ok else False,
-                        f"{name}: the fusion record of the connecting leg in {nm} is not `{frag}` at the {'end' if pos == -1 else 'start'}")
+            raise AnalysisError(f"{name}: no factor built by _replace(struct=, hfs=, mfs=) with a signature sequence found")
+        ends, starts = [], []
+        for sname, hname, mname in trip:
+            sv = [v for st, v, k in b.get(sname, []) if v is not None and k == "assign"]
+            hv = [v for st, v, k in b.get(hname, []) if v is not None and k == "assign"]
+            if not sv or not hv:
+                continue
+            ss, hs = _e3._segments(sv[0], None), _e3._segments(hv[0], None)
+            for segs_s, segs_h, where, acc in ((ss[-1:], hs[-1:], "end", ends), (ss[:1], hs[:1], "start", starts)):
+                if segs_s and segs_s[0][0] == "lit" and segs_s[0][1] == 1 and len(ss) > 1:
+                    sig = A.text(ast.parse(segs_s[0][2], mode="eval").body.elts[0])
+                    frag = f"(_Fusion(s=({sig},)),)"
+                    okh = bool(segs_h) and segs_h[0][0] == "lit" and segs_h[0][2].replace(" ", "") == frag.replace(" ", "")
+                    chk.verdict("S4", (f, hv[0]), f"{name}: {hname} has `{frag}` at the {where}", True if okh else False,
+                                f"{name}: the fusion record of the connecting leg in {hname} is not `{frag}` at the {where} (signature sequence {sname} has `{sig}` there)")
+                    acc.append((sname, sig))
+        for (sl_, e1) in ends:
+            for (sr_, e2) in starts:
+                neg = lambda t: t[1:] if t.startswith("-") else "-" + t
+                chk.verdict("S4", (f, f.node), f"{name}: connecting leg `{e1}` in {sl_} and `{e2}` in {sr_} are opposite", True if e2 == neg(e1) else False,
+                            f"{name}: the factor ending with the new leg gives it signature `{e1}`, the factor starting with it `{e2}`: they must be opposite "
+                            f"for the factors to contract back")
+        # S: fusion records (-E, E)
+        for nm, ds in b.items():
+            for st, v, k in ds:
+                if v is not None and k == "assign" and isinstance(v, ast.Tuple) and len(v.elts) == 2 and all(isinstance(e, ast.Call) and A.call_name(e) == "_Fusion" for e in v.elts):
+                    tx = A.text(v).replace(" ", "")
+                    m_ = __import__("re").fullmatch(r"\(_Fusion\(s=\((-?\w+),\)\),_Fusion\(s=\((-?\w+),\)\)\)", tx)
+                    ok = bool(m_) and (m_.group(1) == "-" + m_.group(2) or m_.group(2) == "-" + m_.group(1))
+                    chk.verdict("S4", (f, v), f"{name}: {nm} = {A.text(v)}", True if ok else False, f"{name}: fusion records of the diagonal factor are not (-E, E)")
     # S5 parameter flow
     for name, pairs in (("svd", [("U", "Uaxis", -1), ("V", "Vaxis", 0)]), ("svd_with_truncation", [("U", "Uaxis", -1), ("V", "Vaxis", 0)]),
                         ("qr", [("Q", "Qaxis", -1), ("R", "Raxis", 0)]), ("eigh", [("U", "Uaxis", -1)]), ("eigh_with_truncation", [("U", "Uaxis", -1)]),
